@@ -395,6 +395,30 @@ def rule_crc(report, prog):
                      'add/check byte order disagree: %s / %s' % (norm(r_add), norm(r_chk)))
 
 
+def rule_crc_routing(report, prog):
+    """R7: whenever a driver switches the chip's receive CRC check off for a target, responses of that target go through the driver's
+    own CRC_A check: the condition that disables the chip check and the condition that routes to _tt2_send_cmd_recv_rsp select the
+    same targets (otherwise a corrupted response of a target in the gap is returned as data, CRC bytes included)."""
+    def strip(t):
+        return t.replace('target.', '')
+    # pn53x: chip check disabled in sense_tta, software check selected in send_cmd_recv_rsp
+    st = prog.func('nfc.clf.pn53x.Device.sense_tta')
+    off = [i for i in walk_no_nested(st.node) if isinstance(i, ast.If) and any(isinstance(x, ast.Expr) and 'CIU_RxMode' in norm(x) and 'write_register' in norm(x) for x in i.body)]
+    sr = prog.func('nfc.clf.pn53x.Device.send_cmd_recv_rsp')
+    route = [i for i in ast.walk(sr.node) if isinstance(i, ast.If) and any(isinstance(x, ast.Return) and '_tt2_send_cmd_recv_rsp(' in norm(x) for x in i.body)]
+    okk = len(off) == 1 and len(route) == 1 and strip(norm(off[0].test)) == strip(norm(route[0].test))
+    report.check(okk, 'C14-R7', key(sr.qname, 'software CRC_A check for exactly the targets whose chip CRC check was switched off'), sr.loc(route[0]) if route else sr.loc(),
+                 'sense_tta switches the chip CRC check off for `%s` but send_cmd_recv_rsp routes `%s` to the software check: responses of the targets in '
+                 'between are returned without any CRC verification' % (norm(off[0].test) if off else '?', norm(route[0].test) if route else '?'))
+    # the routed branch must not be shadowed by an enclosing condition other than "type A target without DEP"
+    # rcs380: the same branch sets check_crc = 0 and calls the software check
+    r3 = prog.func('nfc.clf.rcs380.Device.send_cmd_recv_rsp')
+    br = [i for i in ast.walk(r3.node) if isinstance(i, ast.If) and any("in_set_protocol_settings['check_crc'] = 0" == norm(x) for x in i.body)]
+    okk = len(br) == 1 and any(isinstance(x, ast.Return) and '_tt2_send_cmd_recv_rsp(' in norm(x) for x in br[0].body)
+    report.check(okk, 'C14-R7', key(r3.qname, 'the branch that disables the chip CRC check returns through the software CRC_A check'), r3.loc(),
+                 'rcs380 disables check_crc without routing the response through _tt2_send_cmd_recv_rsp')
+
+
 def rule_crc_enforced(report, prog):
     n = 0
     for q, chk, ret_text in (('nfc.clf.pn53x.Device._tt2_send_cmd_recv_rsp', 'self.check_crc_a(data) is False', 'data[:-2] if len(data) > 2 else data'),
@@ -436,6 +460,7 @@ def run(report, prog, tier):
     rule_rcs380(report, prog)
     rule_crc(report, prog)
     rule_crc_enforced(report, prog)
+    rule_crc_routing(report, prog)
     report.trusted += ['PN53x host link frame format (NXP UM0701-02 6.2.1), RC-S380 frame format, CCID RDR_to_PC_DataBlock layout as '
                        'encoded in the checker\'s independent validators', 'struct semantics of the checker interpreter']
     report.assumptions += ['frames are evaluated from the extracted expressions by the checker\'s evaluator; the repository is not executed']
@@ -506,4 +531,8 @@ MUTANTS = [
     ('tt1-crc-not-enforced', 'nfc.clf.pn533', """        if self.check_crc_b(data) is False:
             raise nfc.clf.TransmissionError("crc_b check error")
         return bytearray(data[:-2])""", """        return bytearray(data[:-2])""", 'C14-R6'),
+    ('tt2-software-crc-only-for-sel-res-00', 'nfc.clf.pn53x', "                if target.sel_res[0] & 0x60 == 0x00:  # TT2", "                if target.sel_res[0] == 0x00:  # TT2", 'C14-R7'),
+    ('chip-crc-off-for-more-targets', 'nfc.clf.pn53x', """            if sel_res[0] & 0x60 == 0x00:
+                self.log.debug("disable crc check for type 2 tag")""", """            if sel_res[0] & 0x40 == 0x00:
+                self.log.debug("disable crc check for type 2 tag")""", 'C14-R7'),
 ]
